@@ -409,6 +409,73 @@ pub fn lookup(name: &str) -> Option<OpFn> {
             }
             ok(r)
         },
+        // ---------------------------------------------------------------- C10
+        "o.proj.ortho" => |a| {
+            let v: Vec<X> = (0..6).map(|_| a.x()).collect();
+            let (l, r, b, t, n, f) = (v[0], v[1], v[2], v[3], v[4], v[5]);
+            if is0(&[r - l]) || is0(&[t - b]) || is0(&[f - n]) { return Out::Skip; }
+            let m = ortho(l, r, b, t, n, f);
+            let one = X::int(1);
+            let mut o = diff(m.transform_point(Point3::new(l, b, -n)), Point3::new(-one, -one, -one));
+            o.extend(diff(m.transform_point(Point3::new(r, t, -f)), Point3::new(one, one, one)));
+            // affine: midpoint goes to the centre
+            let two = X::int(2);
+            o.extend(diff(m.transform_point(Point3::new((l + r) / two, (b + t) / two, -(n + f) / two)), Point3::new(X::int(0), X::int(0), X::int(0))));
+            o.extend(diff(Matrix4::from(Ortho { left: l, right: r, bottom: b, top: t, near: n, far: f }), m));
+            ok(o)
+        },
+        "o.proj.frustum" => |a| {
+            let v: Vec<X> = (0..6).map(|_| a.x()).collect();
+            let (l, r, b, t, n, f) = (v[0], v[1], v[2], v[3], v[4], v[5]);
+            if is0(&[r - l]) || is0(&[t - b]) || is0(&[f - n]) || is0(&[n]) || is0(&[f]) { return Out::Skip; }
+            let m = frustum(l, r, b, t, n, f);
+            let one = X::int(1);
+            let k = f / n;
+            let mut o = diff(m.transform_point(Point3::new(l, b, -n)), Point3::new(-one, -one, -one));
+            o.extend(diff(m.transform_point(Point3::new(r, t, -n)), Point3::new(one, one, -one)));
+            o.extend(diff(m.transform_point(Point3::new(l * k, b * k, -f)), Point3::new(-one, -one, one)));
+            o.extend(diff(m.transform_point(Point3::new(r * k, t * k, -f)), Point3::new(one, one, one)));
+            // w = -z
+            let p = Point3::new(l + one, b - one, -n - one);
+            o.push((m * p.to_homogeneous()).w + p.z);
+            ok(o)
+        },
+        "o.proj.perspective" => |a| {
+            let (fovy, aspect, near, far) = (a.rad(), a.x(), a.x(), a.x());
+            let pf = PerspectiveFov { fovy, aspect, near, far };
+            let m = perspective(fovy, aspect, near, far);
+            let p = pf.to_perspective();
+            let two = X::int(2);
+            let ymax = near * Rad::tan(fovy / two);
+            // under the oracle interpretation tan(fovy/2) may come out negative; the real tan is
+            // positive on (0, pi/2), which is the clause's hypothesis
+            if p.left.val().cmp(&p.right.val()) == std::cmp::Ordering::Greater
+                || p.bottom.val().cmp(&p.top.val()) == std::cmp::Ordering::Greater { return Out::Skip; }
+            let mut o = vec![p.top - ymax, p.bottom + ymax, p.right - ymax * aspect, p.left + ymax * aspect, p.near - near, p.far - far];
+            o.extend(diff(Matrix4::from(p), m));
+            o.extend(diff(Matrix4::from(pf), m));
+            ok(o)
+        },
+        "o.proj.planar" => |a| {
+            let (fovy, aspect, h, near, far) = (a.rad(), a.x(), a.x(), a.x(), a.x());
+            // validity of the focal-point precondition depends on tan(fovy/2), which is
+            // oracle-interpreted here: a rejected tuple is outside the clause's hypothesis
+            let m = match std::panic::catch_unwind(std::panic::AssertUnwindSafe(|| planar(fovy, aspect, h, near, far))) {
+                Ok(m) => m,
+                Err(_) => return Out::Skip,
+            };
+            let (one, two, z) = (X::int(1), X::int(2), X::int(0));
+            let t = m.transform_point(Point3::new(aspect * h / two, h / two, z));
+            let u = m.transform_point(Point3::new(-(aspect * h / two), -(h / two), z));
+            let mut o = vec![t.x - one, t.y - one, u.x + one, u.y + one];
+            o.push(m.transform_point(Point3::new(one, two, -near)).z + one);
+            o.push(m.transform_point(Point3::new(one, two, -far)).z - one);
+            // focal point: w = 0 at z = (h/2) cot(fovy/2)
+            let zf = h / two * Rad::cot(fovy / two);
+            o.push((m * Point3::new(one, two, zf).to_homogeneous()).w);
+            o.extend(diff(Matrix4::from(PlanarFov { fovy, aspect, height: h, near, far }), m));
+            ok(o)
+        },
         // ---------------------------------------------------------------- C01 constructors
         "o.m4.constructors" => |a| {
             let (t, p, v, s, x, y, z) = (a.v3(), a.p3(), a.v3(), a.x(), a.x(), a.x(), a.x());
@@ -502,7 +569,7 @@ pub fn names() -> Vec<String> {
     let mut v: Vec<String> = ["o.v3.lagrange", "o.v3.cross_cross", "o.v3.cross_orth", "o.v.dot_bilinear",
         "o.m4.constructors", "o.m3.constructors", "o.m.embed", "o.p3.homogeneous",
         "o.q.algebra", "o.q.invert", "o.q.rotate", "o.q.compose", "o.q.same_rotation", "o.q.roundtrip",
-        "o.dq.matrix", "o.db2.matrix", "o.m4.transform", "o.m3.transform",
+        "o.proj.ortho", "o.proj.frustum", "o.proj.perspective", "o.proj.planar", "o.dq.matrix", "o.db2.matrix", "o.m4.transform", "o.m3.transform",
         "o.dq.laws", "o.dq.inverse", "o.db3.laws", "o.db3.inverse", "o.db2.laws", "o.db2.inverse"]
         .iter()
         .map(|s| s.to_string())
